@@ -9,11 +9,16 @@ Init == l = 1
 EqProblems(ev) ==
     (IF AllTrue(ev.refl) THEN {} ELSE {"not reflexive"})
     \cup (IF AllTrue(ev.copy) THEN {} ELSE {"independent copy not equal"})
-    \cup (IF ev.applied THEN {} ELSE {"harness: mutation not applied"})
+    \cup (IF ev.applied /\ ("preApplied" \in DOMAIN ev => ev.preApplied) THEN {} ELSE {"harness: mutation not applied"})
     \cup (IF \A i \in DOMAIN ev.mutated : ev.mutated[i].ab = ev.mutated[i].ba THEN {} ELSE {"not symmetric"})
     \cup (IF Covered(ev.mut) THEN (IF AllFalse(ev.mutated) THEN {} ELSE {"covered attribute/child changed but still equal"})
           ELSE (IF AllTrue(ev.mutated) THEN {} ELSE {"child order / equivalences must not affect equality"}))
     \cup (IF ev.vsNull THEN {"equal to null"} ELSE {})
+    \* the variables that hold the changed units object, and their components
+    \cup (IF AllTrue(ev.usersCopy) THEN {} ELSE {"independent copy not equal"})
+    \cup (IF \A i \in DOMAIN ev.usersMutated : ev.usersMutated[i].ab = ev.usersMutated[i].ba THEN {} ELSE {"not symmetric"})
+    \cup (IF ev.mut.op = "set" THEN (IF AllFalse(ev.usersMutated) THEN {} ELSE {"units of a variable changed but the variable / its component is still equal"})
+          ELSE IF ~Covered(ev.mut) THEN (IF AllTrue(ev.usersMutated) THEN {} ELSE {"child order / equivalences must not affect equality"}) ELSE {})
 
 \* ---------------------------------------------------------------- C11
 \* expected content of a clone wrapped by the executor (harness/drv_entity.cpp: wrapContent)
